@@ -817,3 +817,93 @@ def single_signature_spec(spec, si):
   s['subgraph'] = 0
   return ModelSpec(extract_subgraph(spec.content, spec.signatures[si]['subgraph']), [s],
                    spec.classes, spec.label + f'/sub{si}')
+
+
+# ---------------------------------------------------------------- single-operator catalogue (C05, C13, C06 replay)
+
+SINGLE_OPS = {
+    'FULLY_CONNECTED': ['fc', 'fc_nobias', 'fc_keep'],
+    'CONV_2D': ['conv', 'conv_1x1'],
+    'DEPTHWISE_CONV_2D': ['dwconv', 'dwconv_mult2'],
+    'CONV_2D_TRANSPOSE': ['tconv', 'tconv_nobias'],
+    'BATCH_MATMUL': ['bmm_const', 'bmm_const_adj', 'bmm_act'],
+    'EMBEDDING_LOOKUP': ['emb'],
+    'AVERAGE_POOL_2D': ['avgpool'], 'RESHAPE': ['reshape'], 'SOFTMAX': ['softmax'], 'TANH': ['tanh'],
+    'LOGISTIC': ['logistic'], 'GELU': ['gelu'], 'RSQRT': ['rsqrt'], 'TRANSPOSE': ['transpose'],
+    'ADD': ['add', 'add_const'], 'SUB': ['sub', 'sub_const'], 'MUL': ['mul', 'mul_const'],
+    'MEAN': ['mean'], 'CONCATENATION': ['concat'], 'STRIDED_SLICE': ['strided_slice'], 'SPLIT': ['split'],
+}
+
+
+def single_op_model(rng, variant, odd=False):
+  """One operator of the coverage table (plus what it needs to be well-formed)."""
+  o = (lambda a, b: int(rng.choice([a, b]))) if odd else (lambda a, b: a)
+
+  def f(g, rng):
+    v = variant
+    if v in ('fc', 'fc_nobias'):
+      x = g.inp((o(2, 1), o(6, 5)))
+      return [g.fc(x, o(4, 3), bias=(v == 'fc'))]
+    if v == 'fc_keep':
+      x = g.inp((1, o(2, 3), o(4, 5)))
+      return [g.fc(x, o(4, 3), keep=True)]
+    if v == 'conv':
+      x = g.inp((1, 5, o(5, 4), o(2, 3)))
+      return [g.conv(x, o(2, 3), k=3, same=bool(rng.random() < 0.5))]
+    if v == 'conv_1x1':
+      x = g.inp((1, 4, 4, o(2, 3)))
+      return [g.conv(x, o(3, 1), k=1)]
+    if v == 'dwconv':
+      x = g.inp((1, 5, 5, o(2, 3)))
+      return [g.dwconv(x, 1, k=3)]
+    if v == 'dwconv_mult2':
+      x = g.inp((1, 4, 4, o(2, 3)))
+      return [g.dwconv(x, 2, k=o(3, 1))]
+    if v in ('tconv', 'tconv_nobias'):
+      x = g.inp((1, 3, 3, o(2, 3)))
+      return [g.tconv(x, o(2, 1), bias=(v == 'tconv'))]
+    if v in ('bmm_const', 'bmm_const_adj'):
+      x = g.inp((o(2, 1), 3, o(4, 5)))
+      return [g.bmm(x, n_out=o(4, 3), adj_y=(v == 'bmm_const_adj'))]
+    if v == 'bmm_act':
+      x = g.inp((2, 3, 4))
+      y = g.inp((2, 5, 4))
+      return [g.bmm(x, y, adj_y=True)]
+    if v == 'emb':
+      vocab = o(6, 7)
+      ids = g.inp((3,), TT.INT32, vocab=vocab)
+      return [g.emb(ids, vocab, o(4, 5))]
+    if v == 'avgpool':
+      return [g.avgpool(g.inp((1, 4, 4, o(2, 3))))]
+    if v == 'reshape':
+      return [g.reshape(g.inp((2, 6)), [3, 4])]
+    if v in ('softmax', 'tanh', 'logistic', 'gelu'):
+      return [getattr(g, v)(g.inp((2, o(6, 5))))]
+    if v == 'rsqrt':
+      x = g.inp((2, 4))
+      return [g.rsqrt(x)]
+    if v == 'transpose':
+      return [g.transpose(g.inp((2, 3, 4)), [2, 0, 1])]
+    if v in ('add', 'sub', 'mul'):
+      x = g.inp((2, 6))
+      y = g.inp((2, 6))
+      return [getattr(g, v)(x, y)]
+    if v in ('add_const', 'sub_const', 'mul_const'):
+      x = g.inp((2, o(6, 5)))
+      c = g.const('c', g.w((g.shape[x][-1],) if rng.random() < 0.5 else g.shape[x]))
+      return [getattr(g, v.split('_')[0])(x, c)]
+    if v == 'mean':
+      return [g.mean(g.inp((2, 3, 4)), [1], keep=bool(rng.random() < 0.5))]
+    if v == 'concat':
+      x = g.inp((2, 4))
+      y = g.inp((2, 4))
+      return [g.concat([x, y], 1)]
+    if v == 'strided_slice':
+      return [g.strided_slice(g.inp((2, 6)), [0, 1], [2, 6], [1, 2])]
+    if v == 'split':
+      return g.split(g.inp((2, 6)), 1, 2)
+    raise ValueError(v)
+  sp = _single(rng, f, 'single:' + variant)
+  if variant == 'rsqrt':
+    sp.signatures[0]['positive_inputs'] = True
+  return sp
